@@ -61,14 +61,19 @@ class Sym(V):
 
 
 class Hole:
-    __slots__ = ("val", "conv")
+    """A hole of a template.  ``more`` marks "zero or more further elements of the same shape"
+    at the end of a join over a partly known sequence (renders as nothing)."""
 
-    def __init__(self, val: V, conv: str = ""):
+    __slots__ = ("val", "conv", "more", "sep")
+
+    def __init__(self, val: V, conv: str = "", more: bool = False, sep: str = ""):
         self.val = val
         self.conv = conv  # '' | 'r' | 's' | 'a'
+        self.more = more
+        self.sep = sep
 
     def key(self):
-        return ("H", self.conv, self.val.key())
+        return ("H", self.conv, self.more, self.val.key())
 
     def __repr__(self):
         return f"Hole({self.val!r}{'!' + self.conv if self.conv else ''})"
@@ -107,7 +112,7 @@ class Tmpl(V):
 
     def skeleton(self) -> str:
         """Literal chunks with anonymous holes -- a line-number- and name-independent key."""
-        return "".join(p if isinstance(p, str) else ("{!r}" if p.conv == "r" else "{}") for p in self.parts)
+        return "".join(p if isinstance(p, str) else ("{...}" if p.more else ("{!r}" if p.conv == "r" else "{}")) for p in self.parts)
 
     def holes(self) -> List[Hole]:
         return [p for p in self.parts if isinstance(p, Hole)]
